@@ -6,7 +6,7 @@ ROOT = os.path.dirname(os.path.dirname(os.path.abspath(__file__)))
 sys.path.insert(0, ROOT)
 from props import registry
 MAP = {'mciipm': ['C03', 'C04', 'C05', 'C06', 'C09', 'C10', 'C11', 'C17', 'C18'], 'card': ['C15', 'C16'], 'iso8583': ['C01', 'C02', 'C06', 'C07', 'C08', 'C12', 'C16'],
-       'pinblock': ['C13', 'C14'], 'key': ['C14'], 'BitArray': ['C01', 'C02', 'C17']}
+       'pinblock': ['C13', 'C14'], 'key': ['C14'], 'BitArray': ['C01', 'C02', 'C17'], '__init__': ['C10', 'C07'], 'cli/__init__': ['C19', 'C20']}
 only = sys.argv[1:] 
 for name in sorted(os.listdir(os.path.join(ROOT, 'seeded_harmless'))):
     d = os.path.join(ROOT, 'seeded_harmless', name)
